@@ -163,6 +163,58 @@ Definition goto_ok (e : (Z * Z) * Z) : bool := negb (snd e =? 0).
 Definition tables_ok (fix_accept : bool) (g : grammar) (T : tables) : bool :=
   forallb (action_ok fix_accept g T) (actions T) && forallb goto_ok (gotos T).
 
+(* ------------------------------------------------------------------ termination certificate *)
+(* a weight for every state and a rank for every (state, look-ahead); absent = 0.  The potential of a
+   configuration is  sum of the weights of the stack states + rank (top state, look-ahead);
+   [term_ok] checks that every reduction strictly decreases it. *)
+Record tcert := mkTcert { cw : list (Z * nat); cr : list ((Z * Z) * nat) }.
+Definition getw (c : tcert) (s : Z) : nat :=
+  match find (fun e => fst e =? s) (cw c) with Some e => snd e | None => 0%nat end.
+Definition getr (c : tcert) (s t : Z) : nat :=
+  match lookup (s, t) (cr c) with Some n => n | None => 0%nat end.
+
+Fixpoint back_w (pr : Z -> list (Z * Z)) (wt : Z -> nat) (check : Z -> nat -> bool)
+                (rrhs : list Z) (s : Z) (acc : nat) : bool :=
+  match rrhs with
+  | [] => check s acc
+  | _ :: r => forallb (fun e => back_w pr wt check r (fst e) (acc + wt s)%nat) (pr s)
+  end.
+
+Definition reduce_decreases (T : tables) (c : tcert) (X s t : Z) (s0 : Z) (acc : nat) : bool :=
+  match lookup (s0, X) (gotos T) with
+  | None => true
+  | Some s2 => (getw c s2 + getr c s2 t + 1 <=? acc + getr c s t)%nat
+  end.
+
+Definition term_action_ok (fix_accept : bool) (g : grammar) (T : tables) (c : tcert)
+                          (e : (Z * Z) * action) : bool :=
+  let '((s, t), a) := e in
+  match a with
+  | Shift _ => true
+  | Reduce p =>
+      match get_prod g p with
+      | None => true
+      | Some (_, (X, rhs)) => back_w (preds T) (getw c) (reduce_decreases T c X s t) (rev rhs) s 0
+      end
+  | Accept p =>
+      if fix_accept then
+        match get_prod g p with
+        | None => true
+        | Some (_, (X, rhs)) =>
+            back_w (preds T) (getw c) (fun s0 acc => (s0 =? 0) || reduce_decreases T c X s t s0 acc)
+                   (rev rhs) s 0
+        end
+      else true
+  end.
+
+Definition term_ok (fix_accept : bool) (g : grammar) (T : tables) (c : tcert) : bool :=
+  forallb (term_action_ok fix_accept g T c) (actions T).
+
+Definition cert_bound (c : tcert) : nat :=
+  (list_max (map snd (cw c)) + list_max (map snd (cr c)))%nat.
+(* fuel that suffices for an input of n tokens *)
+Definition fuel_for (c : tcert) (n : nat) : nat := ((n + 1) * (cert_bound c + 1))%nat.
+
 (* ------------------------------------------------------------------ rendering for correspondence *)
 Fixpoint tree_val (t : tree) : val :=
   match t with
